@@ -51,6 +51,7 @@ class World:
         self.argv: Dict[str, Any] = {}
         self.handles: List[Any] = []
         self.globals: Dict[str, Any] = {}
+        self.line: Optional[int] = None  # line of the statement being evaluated (for sites)
 
     def shutdown(self) -> None:
         """Interpreter exit: handles the program left open are flushed and closed."""
@@ -83,7 +84,7 @@ class FileStub:
         self.pending: List[str] = []
         if "w" in mode:
             world.files[path] = ""
-            world.events.append(("truncate", path))
+            world.events.append(("truncate", path, world.line))
         elif "x" in mode:
             if path in world.files:
                 raise FileExistsError(path)
@@ -218,6 +219,7 @@ class CategoryStub:
                 raise ValueError
             self.data = []
         self._raiseExceptions, self._copyInputData = raiseExceptions, copyInputData
+        self._world: Optional[World] = None
 
     # UserList behaviour
     def __iter__(self):
@@ -330,6 +332,8 @@ class CategoryStub:
             try:
                 tV = self.data[rowI][self._attributeNameList.index(attributeName)]
                 if (tV is None) or (tV in [".", "?"]):
+                    if self._world is not None and tV != defaultValue:
+                        self._world.events.append(("defaulted", attributeName, rowI, tV, defaultValue, self._world.line))
                     return defaultValue
                 return tV
             except Exception:
@@ -500,7 +504,9 @@ class AdapterStub:
             for cname, attrs, rows in cats:
                 if selectList and ((cname in selectList) == bool(excludeFlag)):
                     continue
-                c.append(CategoryStub(cname, attrs, rows))
+                cat = CategoryStub(cname, attrs, rows)
+                cat._world = self.world
+                c.append(cat)
             out.append(c)
         return out
 
@@ -1018,6 +1024,7 @@ class FuncEval(BlockEval):
             if self.rt.steps > 40000:
                 raise Unknown("too many steps")
             self.rt.cov.add(st)
+            self.rt.world.line = getattr(st, "lineno", None)
             self._stmt(st)
 
     def _assign(self, t: ast.AST, v: Any) -> None:
@@ -1368,7 +1375,7 @@ def check_copy(chk, fi) -> Optional[str]:
             continue
         want = want_copy(d, *a)
         bad = _judge_doc(o, want, a[0], a[1], a[2], t)
-        chk.expect(bad is None, "edit-eval", fi.where, f"copy {a[1]} -> {a[2]} ({tag}): every row's target equals its source, nothing else changes, the written document contains the edit", f"copy {a[1]} -> {a[2]} in `{a[0]}` ({tag}): {bad}", K(fi, f"edit-eval:{tag}"), found=_short(o.value))
+        chk.expect(bad is None, "edit-eval", _site(fi, (_event(o, "defaulted") or [None])[-1]) if bad else fi.where, f"copy {a[1]} -> {a[2]} ({tag}): every row's target equals its source, nothing else changes, the written document contains the edit", f"copy {a[1]} -> {a[2]} in `{a[0]}` ({tag}): {bad}", K(fi, f"edit-eval:{tag}"), found=_short(o.value))
     # -- a second call in the same process starts from the text again ----------------------------------------------------------------
     w = World()
     o1 = _run_lib(repo, tree, fi.qualname, text, ("cat", "a", "n1"), cov, entered, w)
@@ -1417,7 +1424,20 @@ def _judge_doc(o: Outcome, want, cat, src, dst, text: Optional[str] = None) -> O
     got = parse(o.value)
     if got is None:
         return f"the result {_short(o.value)} is not the serialised document"
-    return doc_diff(got, want, cat, src, dst)
+    d = doc_diff(got, want, cat, src, dst)
+    if d is not None:
+        e = _event(o, "defaulted")
+        if e is not None:
+            d += f" - DataCategory.getValueOrDefault('{e[1]}', {e[2]}) hands out its default {e[4]!r} for the stored value {e[3]!r}: it treats '.', '?' and None as missing values, so mmCIF null markers are rewritten on the way"
+    return d
+
+
+def _event(o: Outcome, kind: str) -> Optional[Tuple]:
+    return next((e for e in (o.world.events if o.world is not None else []) if e[0] == kind), None)
+
+
+def _site(fi, line: Optional[int]) -> str:
+    return f"{fi.module.relpath}:{line} {fi.qualname}" if line else fi.where
 
 
 def _short(v: Any) -> str:
@@ -1679,7 +1699,10 @@ def check_cli(chk, fi) -> Optional[str]:
                 what = "the output file holds exactly the text the library returns for the content of the input file and the given options" if not untouched or None not in want else "nothing is transformed and the output file is not touched"
                 chk.ok(rule, fi.where, f"{label}: {what}")
                 continue
-            chk.violation(rule, fi.where, f"{label}: " + _explain_cli(o, w, got, want, before, inp, outp, content, inplace), K(fi, f"{rule}:{tag}"), expected=[_short(x) for x in want], found=_short(got))
+            tr = next((e for e in w.events if e[0] == "truncate" and e[1] == outp), None)
+            rd = next((i for i, e in enumerate(w.events) if e[0] == "read" and e[1] == inp), None)
+            early = tr is not None and (rd is None or w.events.index(tr) < rd)
+            chk.violation(rule, _site(fi, tr[2]) if early else fi.where, f"{label}: " + _explain_cli(o, w, got, want, before, inp, outp, content, inplace), K(fi, f"{rule}:{tag}"), expected=[_short(x) for x in want], found=_short(got))
     if why is None:
         miss = uncovered(cov, [f for n, f in funcs.items() if n == fi.qualname or (n in entered and n not in ("copy_from_to", "replace_value"))])
         if miss:
